@@ -122,10 +122,11 @@ def main(ctx):
     ctx.cov["model_predicted_strings"] = len(plist)
     # (b) cases
     sp = C04.shapes(ctx)
+    tp = C04.tables(ctx)
     wb = ctx.build("writers")
     cases = os.path.join(ctx.scratch, "cases.ndjson")
     with open(cases, "wb") as f:
-        ctx.run([wb, "sengen", "-tier", ctx.tier, "-shapes", sp, "-pred", pp], stdout=f)
+        ctx.run([wb, "sengen", "-tier", ctx.tier, "-shapes", sp, "-pred", pp, "-tables", tp], stdout=f)
     # (c) run and judge
     recs = judge(ctx, cases)
     for rr in recs:
